@@ -3,8 +3,9 @@ Model of `core/holders.py:297‑458`: `SQLLineageHolder._build_digraph` (the sta
 the table / column views.  Statement holders are `LGraph`s (what `StatementLineageHolder.graph` is).
 
 Set iteration orders (`holder.drop`, `holder.rename`, `read × write`) are hash‑seed dependent in the code; here
-they are the graph's own orders, and the one site where the order can change the outcome (several rename pairs in
-one statement, DESIGN D10) takes the order as an explicit permutation argument `renameOrd`.
+they are the graph's own orders.  The rename pairs of one statement are enumerated in an order given by the explicit
+argument `renameOrd` and then SORTED by the `index` of their edges (D10 repaired: before, the enumeration order — a set's
+hash order — decided the outcome, incl. a `NetworkXError`); `Props.C11` shows the argument no longer matters.
 -/
 import SqlLineage.Model.Node
 import SqlLineage.Model.Err
@@ -36,16 +37,32 @@ def Prov.none : Prov := ⟨false, fun _ => []⟩
 def dropStep (g : LGraph) (ts : List Node) : LGraph :=
   ts.foldl (fun g t => if g.hasNode t && g.degree t == 0 then g.removeNode t else g) g
 
-/-- one rename pair (holders.py:385‑389); `none` = `NetworkXError` from `remove_edge` -/
-def renameOne (g : LGraph) (p : Node × Node) : Option LGraph :=
-  let g1 := g.relabel p.1 p.2
-  match g1.removeEdge? p.2 p.2 with
-  | none => none
-  | some g2 => some (if g2.degree p.2 == 0 then g2.removeNode p.2 else g2)
+def insertPair (x : (Node × Node) × Nat) : List ((Node × Node) × Nat) → List ((Node × Node) × Nat)
+  | [] => [x]
+  | y :: r => if x.2 < y.2 then x :: y :: r else y :: insertPair x r
 
-def renameStep (g : LGraph) : List (Node × Node) → Option LGraph
-  | [] => some g
-  | p :: r => match renameOne g p with | none => none | some g' => renameStep g' r
+/-- stable sort by index (`sorted(..., key=lambda r: r[0])`) -/
+def sortPairs (l : List ((Node × Node) × Nat)) : List ((Node × Node) × Nat) := l.foldl (fun acc x => insertPair x acc) []
+
+/-- the rename pairs of holder `h`, enumerated as `l`, in the order `_build_digraph` takes them since the repair of D10:
+    sorted by the `index` attribute of their RENAME edge (default 0), i.e. in statement order -/
+def renamesInOrder (h : LGraph) (l : List (Node × Node)) : List (Node × Node) :=
+  (sortPairs (l.map (fun e => (e, (h.idx e.1 e.2).getD 0)))).map (·.1)
+
+/-- `g.remove_edges_from(pairs)`: edges that are not there are ignored -/
+def removeEdges (g : LGraph) (ps : List (Node × Node)) : LGraph :=
+  { g with edges := g.edges.filter (fun e => !ps.contains e) }
+
+/-- one rename pair (holders.py, D10 repaired): relabel, then drop the new name if nothing is attached to it.  Total: the
+    pair's own RENAME edge is gone before (`removeEdges`), so there is no self loop to remove, and the degree is only looked
+    up for a node that exists. -/
+def renameOne (g : LGraph) (p : Node × Node) : LGraph :=
+  let g1 := g.relabel p.1 p.2
+  if g1.hasNode p.2 && g1.degree p.2 == 0 then g1.removeNode p.2 else g1
+
+/-- all pairs of one RENAME statement: first every RENAME edge of the statement is removed, then the pairs are applied in
+    order -/
+def renameStep (g : LGraph) (ps : List (Node × Node)) : LGraph := ps.foldl renameOne (removeEdges g ps)
 
 def product (rs ws : List Node) : List (Node × Node) := rs.flatMap (fun r => ws.map (fun w => (r, w)))
 
@@ -61,10 +78,7 @@ def foldStep (renameOrd : List (Node × Node) → List (Node × Node)) (g : LGra
   let drop := stmtDrop h
   let ren := stmtRename h
   if !drop.isEmpty then .ok (dropStep g drop)
-  else if !ren.isEmpty then
-    match renameStep g (renameOrd ren) with
-    | some g' => .ok g'
-    | none => .error (.internal "remove_edge")
+  else if !ren.isEmpty then .ok (renameStep g (renamesInOrder h (renameOrd ren)))
   else .ok (rwStep g (stmtRead h) (stmtWrite h))
 
 def foldAll (renameOrd : List (Node × Node) → List (Node × Node)) : LGraph → List LGraph → Except Err LGraph
